@@ -38,7 +38,7 @@ type placed struct {
 type builder struct {
 	sb      strings.Builder
 	line    int
-	lineOff int // offset of the first byte of the current line
+	lineOff int          // offset of the first byte of the current line
 	hashNL  map[int]bool // offsets of '\n' bytes that terminate a # comment
 	toks    []placed
 	lastTok *tokKind
